@@ -39,10 +39,12 @@ class Module:
                               args=[parse_type(a) for a in p['args']]) for p in sig.get('patterns', [])]
         self._loops = {}
         self._whiles = {}
+        self.externals = sig.get('externals', {})
         self.oracles = [dict(o, ast=ast.parse(o['pattern'], mode='eval').body, ret=parse_type(o['ret']),
                              args=[parse_type(a) for a in o['args']]) for o in sig.get('oracles', [])]
         self.structs = {k: {f: parse_type(t) for f, t in v['fields'].items()} for k, v in sig.get('structs', {}).items()}
         self.struct_alias = {k: v.get('alias', {}) for k, v in sig.get('structs', {}).items()}
+        self.struct_out = {k: v.get('out_only', []) for k, v in sig.get('structs', {}).items()}
         self.aliases = []
         self._cur = None
         # index of the source
@@ -133,6 +135,8 @@ class Module:
         if names != list(want):
             raise Unsupported(node, 'parameters of %s are %s; the signature file says %s' % (entry['py'], names, list(want)))
         ps = [(n, ('struct', want[n][7:]) if want[n].startswith('struct ') else parse_type(want[n])) for n in names]
+        if method and entry.get('self'):
+            ps.insert(0, ('self', ('struct', entry['self'])))     # the receiver as a struct of the fields the method touches
         va = kw = None
         if a.vararg:
             if 'varargs' not in entry or list(entry['varargs']) != [a.vararg.arg]:
@@ -160,7 +164,8 @@ class Module:
             if t[0] == 'struct':
                 env.structs[n] = t[1]
                 for f, ft in self.structs[t[1]].items():
-                    env.vars['%s.%s' % (n, f)] = ('%s_%s' % (cname(n), cname(f)), ft)
+                    if f not in self.struct_out[t[1]]:            # out_only fields are written before they are read
+                        env.vars['%s.%s' % (n, f)] = ('%s_%s' % (cname(n), cname(f)), ft)
             else:
                 env.vars[n] = (cname(n), t)
         self.aliases = []
@@ -170,7 +175,8 @@ class Module:
         out = []
         for n, t in ps:
             if t[0] == 'struct':
-                out += [('%s_%s' % (cname(n), cname(f)), self.T.coq(ft, False)) for f, ft in self.structs[t[1]].items()]
+                out += [('%s_%s' % (cname(n), cname(f)), self.T.coq(ft, False)) for f, ft in self.structs[t[1]].items()
+                        if f not in self.struct_out[t[1]]]
             else:
                 out.append((cname(n), self.T.coq(t, False)))
         return out
@@ -210,7 +216,12 @@ class Module:
         if has_while:
             env.vars['fuel_ok'] = ('fuel_ok', ('bool',))
         if 'result' in entry:
-            ret = ('tuple',) + tuple(env.vars[r][1] for r in entry['result'])     # the final values of these fields
+            def rtype(r):
+                if r in env.vars:
+                    return env.vars[r][1]
+                v_, f_ = r.split('.')
+                return self.structs[env.structs[v_]][f_]
+            ret = ('tuple',) + tuple(rtype(r) for r in entry['result'])     # the final values of these fields
         else:
             ret = parse_type(entry['ret'])
         eff = effects(self, node.body, env)
@@ -221,6 +232,9 @@ class Module:
             raise Unsupported(node, '%s writes more than one state component' % q)
         if 'result' in entry:
             def tail(e):
+                for r in entry['result']:
+                    if r not in e.vars:
+                        raise Unsupported(node, 'result %s is not assigned on every path' % r)
                 vals = [e.vars[r] for r in entry['result']]
                 if ('tuple',) + tuple(t for _, t in vals) != ret:
                     raise Unsupported(node, 'result %s has type %s, the signature file says %s' % (entry['result'], [t for _, t in vals], ret))
@@ -577,8 +591,22 @@ class Module:
                 raise Unsupported(node, '%s is not translated but pinned, and it changed (ast hash %s, pinned %s)'
                                   % (q, got, want['ast_sha256_16']))
 
+    def load_externals(self):
+        """functions of another module that another target generates: callable here if the source really
+        imports that name from that module"""
+        for name, x in self.externals.items():
+            ok = any(isinstance(n, ast.ImportFrom) and n.module == x['module'] and any(a.name == name and a.asname is None for a in n.names)
+                     for n in ast.walk(self.tree))
+            if not ok:
+                raise Unsupported(0, '%s is no longer imported from %s' % (name, x['module']))
+            if name in self.top:
+                raise Unsupported(self.top[name], '%s is now defined in this file' % name)
+            self.funs[name] = FnInfo(name, x['coq'], [('a%d' % i, parse_type(t)) for i, t in enumerate(x['params'])],
+                                     [], [], False, parse_type(x['ret']), False)
+
     def translate(self):
         self.check_coverage()
+        self.load_externals()
         for e in self.sig['emit']:
             getattr(self, 'do_' + e['kind'])(e)
         return self.text()
